@@ -114,15 +114,15 @@ Section MatFacts.
       assert (E : length (nth i A []) = 2 ^ n).
       { rewrite Forall_forall in Hr. apply Hr. apply nth_In. now rewrite Hl. }
       rewrite <- E. symmetry. apply map_nth_seq.
-    - rewrite <- map_idx_allbits at 2. rewrite map_map. apply map_ext. intros r.
-      rewrite <- map_idx_allbits, map_map. reflexivity.
+    - rewrite <- map_idx_allbits. rewrite map_map. apply map_ext. intros r.
+      rewrite map_map. reflexivity.
   Qed.
 
   Lemma mmul_tab2 n f g :
     mmul K (tab2 n f) (tab2 n g)
     = tab2 n (fun r c => tsum (map (fun k => mul K (f r k) (g k c)) (allbits n))).
   Proof.
-    unfold mmul. unfold tab2 at 1 3. rewrite map_map. apply map_ext_in. intros r Hr.
+    unfold mmul. unfold tab2 at 2 3. rewrite map_map. apply map_ext_in. intros r Hr.
     assert (HL : length (rowmul K (map (fun c => f r c) (allbits n)) (tab2 n g)) = 2 ^ n).
     { apply rowmul_length_pos.
       - apply (tab2_wf n g).
@@ -130,21 +130,14 @@ Section MatFacts.
       - intros E. apply map_eq_nil in E. now apply allbits_nonempty in E. }
     apply nth_ext with (d := zero) (d' := zero); [now rewrite HL, map_length, allbits_length|].
     intros j Hj. rewrite HL in Hj. rewrite nth_rowmul.
-    rewrite <- (nth_idx_allbits n (bits n j) (repeat false n)) at 2.
-    2:{ unfold bits. apply allbits_In. apply nth_In. now rewrite allbits_length. }
-    assert (Ej : idx (bits n j) = j).
-    { unfold bits. rewrite <- (map_nth idx). rewrite map_idx_allbits.
-      rewrite (nth_indep _ _ 0) by (now rewrite seq_length). now apply seq_nth. }
-    rewrite Ej.
     rewrite (nth_map_d _ _ _ _ (repeat false n)) by (now rewrite allbits_length).
-    fold (bits n j). unfold tab2.
+    unfold tab2.
     assert (C : forall (l : list (list bool)),
                combine (map (fun c => f r c) l) (map (fun r0 => map (fun c => g r0 c) (allbits n)) l)
                = map (fun k => (f r k, map (fun c => g k c) (allbits n))) l).
     { induction l as [|h t IH]; simpl; [reflexivity|]. now rewrite IH. }
     rewrite C, map_map. apply tsum_map_ext. intros k Hk. simpl. f_equal.
-    rewrite <- Ej at 1. rewrite (nth_map_d _ _ _ _ (repeat false n)) by (rewrite Ej, allbits_length; assumption).
-    rewrite Ej. reflexivity.
+    now rewrite (nth_map_d _ _ _ _ (repeat false n)) by (now rewrite allbits_length).
   Qed.
 
   (* ---------------------------------------------------------------- vectors *)
@@ -168,8 +161,8 @@ Section MatFacts.
     mvmul K (mmul K A B) v = mvmul K A (mvmul K B v).
   Proof.
     intros HA HB Hv. rewrite (wf_tab2 n A HA), (wf_tab2 n B HB), mmul_tab2.
-    rewrite !mvmul_tab2; try assumption.
-    2:{ unfold tvec. now rewrite map_length, allbits_length. }
+    rewrite (mvmul_tab2 n _ v Hv). rewrite (mvmul_tab2 n (mentry B) v Hv).
+    rewrite mvmul_tab2 by (unfold tvec; now rewrite map_length, allbits_length).
     unfold tvec. apply map_ext_in. intros r Hr. apply allbits_In in Hr.
     rewrite (tsum_map_ext K _ (fun c => tsum (map (fun k => mul K (mul K (mentry A r k) (mentry B k c)) (vtens K v c)) (allbits n))))
       by (intros c _; symmetry; apply tsum_scale_r; assumption).
@@ -186,7 +179,8 @@ Section MatFacts.
   Lemma mvmul_identity n v : length v = 2 ^ n -> mvmul K (midentity K n) v = v.
   Proof.
     intros Hv. rewrite midentity_tab2, mvmul_tab2 by assumption.
-    rewrite <- (vec_tabulate K n v Hv) at 2. unfold tvec. apply map_ext_in. intros r Hr. apply allbits_In in Hr.
+    transitivity (map (vtens K v) (allbits n)); [|now apply vec_tabulate].
+    unfold tvec. apply map_ext_in. intros r Hr. apply allbits_In in Hr.
     rewrite (tsum_map_ext K _ (fun c => if beqb r c then vtens K v c else zero)).
     - now apply (tsum_delta K HK).
     - intros c _. destruct (beqb r c); [apply mul_1_l|apply mul_0_l].
